@@ -25,6 +25,9 @@ Without a stale RUNNING trial the samplers' running-trial handling is dead code 
 sequential run (mutant "RUNNING counts as finished" would be equivalent).  The killed
 evaluation is not a visit; the resumed run must still evaluate that combination once.
 `VERIF_C14_NO_KILLS=1` switches the extension off.
+
+Heartbeat mode (added for seeded change C14-14): see `cfg["hb"]` in gen_plan and DESIGN.md C14,
+"Heartbeat recovery".
 """
 from __future__ import annotations
 
@@ -56,6 +59,7 @@ EVIDENCE = {
         "a finished search is never resumed (BruteForceSampler/GridSampler re-evaluate a point by design when optimize is called on an exhausted study)",
         "failed, pruned and interrupted evaluations count as visits (as both samplers define); an evaluation cut by a process kill does not (its trial stays RUNNING)",
         "process kills (trial left RUNNING forever) on the durable deployments. GridSampler and BruteForceSampler(avoid_premature_stop=True) promise coverage regardless of running trials: every leaf exactly once. BruteForceSampler(avoid_premature_stop=False) documents that the position held by a running trial counts as taken: leaves below the parameter prefix p at which a worker died may stay unvisited as long as no other trial went below p (once one did, p's node is expanded, the mark on it is void and everything below must be visited); everything else exactly once, and the search stops by itself when only such leaves are left",
+        "heartbeat mode (rdb, BruteForceSampler(avoid_premature_stop=False), RDBStorage with heartbeat_interval/grace_period and RetryFailedTrialCallback, evaluations take 1-6 s of virtual time, kills after the last suggest only, restart at once): the leaf of a dead worker's trial stays excused only until a trial starts more than grace + interval + 2 s after the death of a worker whose trial had a heartbeat row; from then on optimize()'s sweep before every ask must have failed it and its retry must be evaluated - the leaf is owed like any other. A dead trial copied by copy_study has no heartbeat row and stays excused. The trial failed by the sweep is not an evaluation",
         "GridSampler is always re-created with the same seed (grid ids index the seed-shuffled grid); BruteForceSampler is re-created with the same or a different seed; BruteForceSampler(seed=None) is not run (non-deterministic order, equivalent to some seed)",
         "exhaustion coinciding with a chunk end / stopping callback / interrupt: exactly-once only (counter exhausted_at_boundary:*)",
     ],
